@@ -113,6 +113,18 @@ def filterStream (blk : String → Nat → Nat → Nat) (size : Nat) (pos : Sim 
     | .error e => .error e
     | .ok ps => .ok (filterProb idx (ds.map fun d => d.2.2 * scale) ps)
 
+/-- the same `filter_for_probability` called on a stream created with `initializes_crn_attributes=True`: identical
+code, the common draw is the positional one (`getDrawInit`) -/
+def filterStreamInit (blk : String → Nat → Nat → Nat) (size : Nat) (ks : String)
+    (scale : Nat) (idx : List Sim) (probs : Probs) : Except Err (List Sim) :=
+  if idx.isEmpty then .ok [] else
+  match getDrawInit blk size ks idx with
+  | .error e => .error e
+  | .ok ds =>
+    match broadcast idx probs with
+    | .error e => .error e
+    | .ok ps => .ok (filterProb idx (ds.map fun d => d.2.2 * scale) ps)
+
 /-! ### choice -/
 
 /-- a weight: numerator over the matrix denominator `Q`, or the placeholder `RESIDUAL_CHOICE` -/
@@ -199,6 +211,13 @@ def choiceAll (Q : Nat) (nChoices : Nat) (p : Weights) (draws : List Nat) (D : N
 def choiceStream (blk : String → Nat → Nat → Nat) (size : Nat) (pos : Sim → Option Nat) (ks : String)
     (Q nChoices : Nat) (p : Weights) (idx : List Sim) : Except Err (List Nat) :=
   match getDraw blk size pos ks idx with
+  | .error e => .error e
+  | .ok ds => choiceAll Q nChoices p (ds.map (·.2.2)) (2 ^ 53)
+
+/-- `choice` on a stream created with `initializes_crn_attributes=True` (positional common draw) -/
+def choiceStreamInit (blk : String → Nat → Nat → Nat) (size : Nat) (ks : String)
+    (Q nChoices : Nat) (p : Weights) (idx : List Sim) : Except Err (List Nat) :=
+  match getDrawInit blk size ks idx with
   | .error e => .error e
   | .ok ds => choiceAll Q nChoices p (ds.map (·.2.2)) (2 ^ 53)
 
